@@ -29,6 +29,8 @@ CLASSES = ["bin", "shift", "not", "widen", "narrow", "chain", "agg"]
 PROCS = 4
 BATCH_RUN = 300        # cases per package whose tests run on the VM
 BATCH_REFUSE = 400     # cases per package expected not to compile (verdicts come from hook H8)
+BATCH_CFG = 100        # configurables per package (140 u256 configurables logged by one package panic the compiler:
+                       # "4096 cannot fit in 12 bits" -- a C17 matter, see notes/C06.md)
 CONST_ERR = "Could not evaluate initializer to a const declaration"
 CFG_ERR = "Could not evaluate initializer"
 R = Renderer({"structs": {}, "enums": {}, "fns": {}})
@@ -256,6 +258,9 @@ class Groups:
             return []
         diag = b.get("diag") or ""
         panic = b.get("panic")
+        if "Failed to compile std" in (b.get("err") or ""):
+            # the compiler under test cannot build the standard library: nothing can be attributed to a case
+            raise ToolError("C06: std does not compile with the tree under test (package %s): %s" % (rec["id"], diag[-800:]))
         errs = []
         for chunk in diag.split("____"):
             m = re.search(r"(?m)^error\b", chunk)
@@ -456,7 +461,7 @@ def run(ctx):
     gg = Groups(ctx, "g")
     cfg_ok = [c for c in sel if not refused(c)][::7]
     cfg_bad = [c for c in sel if refused(c)][::(151 if not ctx.quick else 61)]
-    gg.add(chunks(cfg_ok, BATCH_RUN) + [[c] for c in cfg_bad])
+    gg.add(chunks(cfg_ok, BATCH_CFG) + [[c] for c in cfg_bad])
     # --- b: literals in function bodies, release
     gb = Groups(ctx, "b")
     gb.add(chunks(sel, BATCH_RUN))
